@@ -33,7 +33,7 @@ ASSUMPTIONS = ["liveness is demanded only when no peer closes the connection bef
 PROBES = ["redirect_relative", "redirect_other_host", "redirect_multi_hop", "delayed_answer", "close_delimited_last", "peer_closes_mid_queue",
           "https_to_http_refused", "chunked_answer", "unfollowable_redirect_reported", "request_after_unfollowable_redirect"]
 BOUNDS = dict(quick=dict(requests=6, hops=3), thorough=dict(requests=8, hops=3))
-TIERS = dict(quick=dict(cases=20000, wall=45.0), thorough=dict(cases=1200000, wall=420.0))
+TIERS = dict(quick=dict(cases=30000, wall=60.0), thorough=dict(cases=1200000, wall=420.0))
 SIM_TIME_UNIT = "net steps"
 
 STUCK = ("noloc", "badloc", "downgrade-other", "downgrade-same")    # redirects that must not be followed
